@@ -193,7 +193,7 @@ impl Checker {
 pub open spec fn root_checker(root: Seq<char>, cache: ShapeCache) -> CkState {
     CkState {
         symbols: Map::empty(), errs: Seq::empty(), shapes: Seq::empty(), depth: 0, strict: true, dir: Some(root),
-        cache: cache, istack: Seq::empty(),
+        cache: cache, istack: path_texts(Seq::empty()),
     }
 }
 //@ extract src/ast/typecheck/mod.rs :: impl Checker :: fn new
@@ -210,14 +210,14 @@ pub open spec fn root_checker(root: Seq<char>, cache: ShapeCache) -> CkState {
 //@   subst "P: Into<PathBuf>>" => "P: vinto::VIntoPathBuf>"
 //@   ret r
 //@   sig <<<
-        ensures r.st() == (CkState { dir: Some(dir.pview()), ..self__in.st() })
+        ensures r.st() == (CkState { dir: Some(dir.pview()), ..self.st() })
 //@   >>>
 //@ end
 //@ extract src/ast/typecheck/mod.rs :: impl Checker :: fn with_shape_cache
 //@   rule R4
 //@   ret r
 //@   sig <<<
-        ensures r.st() == (CkState { cache: cache, ..self__in.st() })
+        ensures r.st() == (CkState { cache: cache, ..self.st() })
 //@   >>>
 //@ end
 //@ extract src/ast/typecheck/mod.rs :: impl Checker :: fn result
